@@ -52,6 +52,7 @@ func runCheck(args []string) {
 	seed := 0
 	fmt.Sscanf(os.Getenv("VERIF_SEED"), "%d", &seed)
 	t0 := time.Now()
+	probeCalls = true // call-site consistency probes run in both tiers
 	quick, full := 8*time.Second, 150*time.Second
 	if v := os.Getenv("GOVC_FULL"); v != "" {
 		// self-test runs on deliberately broken trees: do not wait long for obligations that will not prove
@@ -62,6 +63,7 @@ func runCheck(args []string) {
 	if *tier == "thorough" {
 		quick, full = 20*time.Second, 300*time.Second
 		crossCheck = true
+		probeCalls = true
 	}
 	evPath := filepath.Join(*outRoot, "evidence", *prop+".json")
 	os.MkdirAll(filepath.Dir(evPath), 0o755)
@@ -146,6 +148,7 @@ func runCheck(args []string) {
 	var unclaimed []string
 	total, discharged := 0, 0
 	boundedRuns := 0
+	probesOK := 0
 	for _, r := range results {
 		if r.Unsupported != "" {
 			name := r.Name + ".translate"
@@ -163,6 +166,18 @@ func runCheck(args []string) {
 			continue
 		}
 		for _, ob := range r.Obligations {
+			if ob.Probe == "pre" {
+				continue // only meaningful together with its post probe
+			}
+			if ob.Probe == "post" {
+				// a contradiction introduced by the callee's contract: reachable before, unreachable after
+				if ob.ProbePre != nil && ob.ProbePre.Status == "discharged" && ob.Status == "refuted" {
+					total++
+				} else {
+					probesOK++
+					continue
+				}
+			}
 			if ob.Kind == "bounded" {
 				// bounded stand-ins are reported but never counted as proved
 				boundedRuns++
@@ -206,8 +221,11 @@ func runCheck(args []string) {
 	}
 	writeEvidence(evPath, *prop, *tier, seed, e, results, ps, time.Since(t0).Seconds(), violations, unclaimed, known)
 	extra := ""
+	if probesOK > 0 {
+		extra = fmt.Sprintf(" (%d call-site consistency probes passed)", probesOK)
+	}
 	if boundedRuns > 0 {
-		extra = fmt.Sprintf(" (+%d bounded run(s), not counted as proved)", boundedRuns)
+		extra += fmt.Sprintf(" (+%d bounded run(s), not counted as proved)", boundedRuns)
 	}
 	fmt.Printf("property %s: %d obligations, %d discharged%s, %d violations, %.1fs\n", *prop, total, discharged, extra, violations, time.Since(t0).Seconds())
 	if violations > 0 {
@@ -226,6 +244,7 @@ func writeEvidence(path, prop, tier string, seed int, e *Engine, results []*Func
 	byKind := map[string]int{}
 	var solverTime float64
 	secondCount := 0
+	probeTotal, probePassed := 0, 0
 	var boundedObs []interface{}
 	var funcs []string
 	var samples []interface{}
@@ -249,6 +268,15 @@ func writeEvidence(path, prop, tier string, seed int, e *Engine, results []*Func
 			}
 		}
 		for i, ob := range r.Obligations {
+			if ob.Probe != "" {
+				if ob.Probe == "post" {
+					probeTotal++
+					if !(ob.ProbePre != nil && ob.ProbePre.Status == "discharged" && ob.Status == "refuted") {
+						probePassed++
+					}
+				}
+				continue
+			}
 			if ob.Kind == "bounded" {
 				boundedObs = append(boundedObs, map[string]string{"obligation": ob.Name, "status": ob.Status, "what": ob.Clause, "seconds": fmt.Sprintf("%.1f", ob.Time)})
 				continue
@@ -321,6 +349,7 @@ func writeEvidence(path, prop, tier string, seed int, e *Engine, results []*Func
 		"not_covered":           ps.NotCovered,
 		"bounded":               ps.Bounded,
 		"bounded_runs_not_counted_as_proved": boundedObs,
+		"call_site_consistency_probes": fmt.Sprintf("%d of %d passed (the path is satisfiable before a callee's postconditions are assumed and still satisfiable after)", probePassed, probeTotal),
 		"integer_model":         "every Go integer is a bit-vector of its width (wrap-around, signedness, shifts modelled exactly)",
 	}
 	if len(samples) == 0 {
